@@ -816,6 +816,15 @@ def r10_reverse_and_grid(ctx):
     _r15(proxy(ctx, 'R10'))
 
 
+def r11_aligned_maps(ctx):
+    """R11: after the maps of all OMS were padded to one range, position i of a map still is slot freq_index[i]: insert_left /
+    insert_right put the padding on the side on which they extend the index run - otherwise occupancy is read and written at
+    other slots than the ones assigned, and a slot can be booked twice (contiguous-run rule shared with C15-R2)"""
+    from .c15 import r2_indices as _r
+    from .common import proxy
+    _r(proxy(ctx, 'R11'))
+
+
 from ..memo import rule_for as _memo_rule
 
 RULES_MEMO = ('Rm.memo', _memo_rule('C14', 'spectrum availability computed for another state would be reused'))
@@ -825,4 +834,4 @@ from ..presence import rule_for as _presence_rule
 
 RULES_PRESENCE = ('Rp.presence', _presence_rule('C14', 'a user-fixed slot N = 0 (the grid anchor) would be treated as not given and placed elsewhere'))
 
-RULES = [('R7.window', r7_window), ('R6.merge-probe', r6_merge_and_probe), ('R1.fresh', r1_fresh), ('R2.commit', r2_commit), ('R4.slots', r4_slots), ('R5.first-fit', r5_first_fit), RULES_MEMO, RULES_PRESENCE, ('Re.for-each', re_foreach), ('Ra.alias-mutation', ra_alias), ('Rn.arg-roles', rn_arg_roles), ('R8.inputs', r8_inputs), ('R9.scratch-faithful', r9_scratch_faithful), ('R10.reverse-and-grid', r10_reverse_and_grid)]
+RULES = [('R7.window', r7_window), ('R6.merge-probe', r6_merge_and_probe), ('R1.fresh', r1_fresh), ('R2.commit', r2_commit), ('R4.slots', r4_slots), ('R5.first-fit', r5_first_fit), RULES_MEMO, RULES_PRESENCE, ('Re.for-each', re_foreach), ('Ra.alias-mutation', ra_alias), ('Rn.arg-roles', rn_arg_roles), ('R8.inputs', r8_inputs), ('R9.scratch-faithful', r9_scratch_faithful), ('R10.reverse-and-grid', r10_reverse_and_grid), ('R11.aligned-maps', r11_aligned_maps)]
